@@ -33,6 +33,7 @@ structure Tidy (c : Chart) : Prop where
   parentKeysStates : ∀ k, k ∈ c.parent.map (·.1) → c.hasState k = true
   statesHaveEntry : ∀ k, c.hasState k = true → k ∈ c.parent.map (·.1)
   childKeysStates : ∀ k, some k ∈ c.children.map (·.1) → c.hasState k = true
+  statesHaveChildEntry : ∀ k, c.hasState k = true → some k ∈ c.children.map (·.1)
   oneRoot : ∀ e ∈ c.parent, ∀ e' ∈ c.parent, e.2 = none → e'.2 = none → e = e'
   childParent : ∀ p ch, ch ∈ c.childrenFor p ↔ c.parentFor ch = some p
   childrenNodup : ∀ p, (c.childrenFor p).Nodup
@@ -375,10 +376,39 @@ theorem map_renameIn_of_not_mem (a b : Name) (l : List Name) (h : a ∉ l) : l.m
   · simp
   · intro z hz; exact renameIn_ne (fun e => h (e ▸ hz))
 
-/-- … and so are the children lists -/
-theorem rename_children_perm (c : Chart) (a b : Name) (ht : Tidy c) (h : (c.renameState a b).1 = .ok ()) (hne : a ≠ b)
+/-- `_children` after `rename_state`, with the parent looked up in the old chart -/
+theorem renameState_children (c : Chart) (a b : Name) (ht : Tidy c) (h : (c.renameState a b).1 = .ok ()) (hne : a ≠ b) :
+    (c.renameState a b).2.children =
+      assocErase (some a) (assocModify (c.parentFor a) (fun l => l.erase a ++ [b]) c.children) ++
+        [(some b, match (assocModify (c.parentFor a) (fun l => l.erase a ++ [b]) c.children).find? (fun p => p.1 == some a) with
+          | some (_, l) => l
+          | none => [])] := by
+  have hpn : (match (c.parent.map (fun p => (p.1, if p.2 == some a then some b else p.2))).find? (fun p => p.1 == a) with
+      | some (_, q) => q
+      | none => none) = c.parentFor a := by
+    rw [find?_map_keep (fun (p : Name × Option Name) => (p.1, if p.2 == some a then some b else p.2)) (fun _ => rfl) a]
+    have hs := ht.noSelf a
+    unfold Chart.parentFor at hs ⊢
+    cases hf : c.parent.find? (fun p => p.1 == a) with
+    | none => rfl
+    | some x =>
+      obtain ⟨k, v⟩ := x
+      rw [hf] at hs
+      simp only at hs
+      simp only [Option.map_some]
+      split
+      · next e => exact absurd (by simpa using e) hs
+      · rfl
+  have hch := (renameState_fields c a b h hne).2
+  simp only [hpn] at hch
+  exact hch
+
+/-- the children lists of the renamed chart -/
+theorem rename_childrenFor (c : Chart) (a b : Name) (ht : Tidy c) (h : (c.renameState a b).1 = .ok ()) (hne : a ≠ b)
     (n : Name) :
-    ((c.renameState a b).2.childrenFor n).Perm ((c.mapNames (renameIn a b)).childrenFor n) := by
+    (c.renameState a b).2.childrenFor n =
+    if n = a then [] else if n = b then c.childrenFor a
+    else if c.parentFor a = some n then ((c.childrenFor n).erase a ++ [b]) else c.childrenFor n := by
   obtain ⟨hnb, hha, _⟩ := renameState_states c a b h hne
   -- the parent the code looks up
   have hpn : (match (c.parent.map (fun p => (p.1, if p.2 == some a then some b else p.2))).find? (fun p => p.1 == a) with
@@ -421,8 +451,7 @@ theorem rename_children_perm (c : Chart) (a b : Name) (ht : Tidy c) (h : (c.rena
     · simp only [hk, if_true]; exact find?_assocModify_same _ _ _
     · simp only [hk, if_false]; exact find?_assocModify_ne _ _ _ hk _
   have hpa : c.parentFor a ≠ some a := ht.noSelf a
-  -- the children of `n` in the renamed chart
-  have lhs : (c.renameState a b).2.childrenFor n =
+  have goal : (c.renameState a b).2.childrenFor n =
       if n = a then [] else if n = b then c.childrenFor a
       else if c.parentFor a = some n then F (c.childrenFor n) else c.childrenFor n := by
     unfold Chart.childrenFor
@@ -470,6 +499,18 @@ theorem rename_children_perm (c : Chart) (a b : Name) (ht : Tidy c) (h : (c.rena
           cases hf : c.children.find? (fun p => p.1 == some n) with
           | some e => simp
           | none => simp [List.find?_cons, this]
+
+  rw [goal, hF]
+
+/-- … and so are the children lists -/
+theorem rename_children_perm (c : Chart) (a b : Name) (ht : Tidy c) (h : (c.renameState a b).1 = .ok ()) (hne : a ≠ b)
+    (n : Name) :
+    ((c.renameState a b).2.childrenFor n).Perm ((c.mapNames (renameIn a b)).childrenFor n) := by
+  obtain ⟨hnb, hha, _⟩ := renameState_states c a b h hne
+  have hb_nokey : some b ∉ c.children.map (·.1) := fun hk => by
+    have := ht.childKeysStates b hk; rw [hnb] at this; cases this
+  have ha_self : a ∉ c.childrenFor a := fun hm => ht.noSelf a ((ht.childParent a a).mp hm)
+  have lhs := rename_childrenFor c a b ht h hne n
   -- the children of `n` in the substituted chart
   have rhs : (c.mapNames (renameIn a b)).childrenFor n =
       if n = a then [] else if n = b then (c.childrenFor a).map (renameIn a b)
@@ -529,7 +570,6 @@ theorem rename_children_perm (c : Chart) (a b : Name) (ht : Tidy c) (h : (c.rena
     · simp only [hnb', if_false]
       by_cases hp : c.parentFor a = some n
       · simp only [hp, if_true]
-        rw [hF]
         exact erase_append_perm_map a b _ (ht.childrenNodup n) ((ht.childParent n a).mpr hp)
       · simp only [hp, if_false]
         rw [map_renameIn_of_not_mem a b _ (fun hm => hp ((ht.childParent n a).mp hm))]
@@ -601,12 +641,13 @@ theorem rename_is_substitution (c : Chart) (a b : Name) (ht : Tidy c) (h : (c.re
 def tidyExtraB (c : Chart) : Bool :=
   decide (c.parent.map (·.1)).Nodup && decide (c.children.map (·.1)).Nodup &&
   c.parent.all (fun p => c.hasState p.1) &&
-  c.children.all (fun p => match p.1 with | some k => c.hasState k | none => true)
+  c.children.all (fun p => match p.1 with | some k => c.hasState k | none => true) &&
+  c.states.all (fun s => (c.children.map (·.1)).contains (some s.name))
 
 theorem tidy_of_wf (c : Chart) (hw : WFChart c) (hx : tidyExtraB c = true) : Tidy c := by
   unfold tidyExtraB at hx
   simp only [Bool.and_eq_true, decide_eq_true_eq, List.all_eq_true] at hx
-  obtain ⟨⟨⟨hpk, hck⟩, hps⟩, hcs⟩ := hx
+  obtain ⟨⟨⟨⟨hpk, hck⟩, hps⟩, hcs⟩, hce⟩ := hx
   have pks : ∀ k, k ∈ c.parent.map (·.1) → c.hasState k = true := by
     intro k hk
     obtain ⟨p, hp, rfl⟩ := List.mem_map.mp hk
@@ -638,7 +679,7 @@ theorem tidy_of_wf (c : Chart) (hw : WFChart c) (hx : tidyExtraB c = true) : Tid
           · exact ih hn' e1 e2
       rw [this c.parent hpk hxm he]
   obtain ⟨r, hroot, hrp, hrs⟩ := hw.root
-  refine ⟨hw.names, hpk, hck, pks, ?_, ?_, ?_, hw.children, hw.childrenNodup, ?_⟩
+  refine ⟨hw.names, hpk, hck, pks, ?_, ?_, ?_, ?_, hw.children, hw.childrenNodup, ?_⟩
   · -- every state has an entry
     intro k hk
     by_cases hkr : c.root = some k
@@ -656,6 +697,13 @@ theorem tidy_of_wf (c : Chart) (hw : WFChart c) (hx : tidyExtraB c = true) : Tid
     have := hcs p hp
     rw [e] at this
     exact this
+  · intro k hk
+    simp only [Chart.hasState, Chart.stateFor, Option.isSome_iff_exists] at hk
+    obtain ⟨sd, hsd⟩ := hk
+    have := hce sd (List.mem_of_find?_eq_some hsd)
+    have hn : sd.name = k := by simpa using List.find?_some hsd
+    rw [hn] at this
+    simpa using this
   · -- one root
     have isRoot : ∀ e ∈ c.parent, e.2 = none → e.1 = r := by
       intro e he hn
